@@ -30,15 +30,19 @@ CLAIMS = [
     },
     {
         "id": "C10",
-        "technique": "static analysis: MIR panic provenance, HIR diverging-arm table with who-may-construct side conditions, stripped-arena typestate, exit-path dominance",
-        "level_text": "Decides four exact necessary conditions of front-end totality: (1) no unwrap/expect of a text-to-value conversion "
-                      "outside the audited 'total on the token language' table; (2) every match arm / let-else over a zydeco syntax "
-                      "enum in the surface passes, session and check/ that can only exit by panic is a listed phase-ordering exclusion, "
-                      "and the listed payload types are constructed only by the listed producers; (3) the payload-stripped arena "
-                      "returned by ProgramAnalysis::statics() is used only through StaticsIndexes; (4) main maps Err to render + "
-                      "exit(1). Each rule fired on a confirmed defect of the pinned tree (F2, F3, F4, F10; all repaired).",
-        "level_note": "NOT decided: general panic freedom of the several hundred invariant-justified unwrap/expect/index sites, "
-                      "termination, that diagnostic locations lie inside the file. Capacity conversions (usize->u32) out of scope.",
+        "technique": "static analysis: MIR panic provenance (text conversions, hole-dependent lookups, first-element unwraps with dominance-proved guards), HIR diverging-arm table with who-may-construct side conditions, stripped-arena typestate, exit-path dominance",
+        "level_text": "Decides six exact necessary conditions of front-end totality: (1) no unwrap/expect of a text-to-value conversion "
+                      "outside the audited 'total on the token language' table; (2) no unwrap of a normal-form lookup that is None for an "
+                      "unsolved hole (code before the error test runs on rejected programs); (3) every unwrap of the first/last/next "
+                      "element of a sequence is dominated on MIR by a non-emptiness test of the same sequence, or belongs to the inventory "
+                      "of declared invariants (34 sites by function and producer): a site that appears or loses its guard is reported; (4) "
+                      "every match arm / let-else over a zydeco syntax enum in the surface passes, session and check/ that can only exit by "
+                      "panic is a listed phase-ordering exclusion with re-checked producers; (5) the payload-stripped arena of "
+                      "ProgramAnalysis::statics() is used only through StaticsIndexes; (6) main maps Err to render + exit(1). The rules fired "
+                      "on confirmed defects of the pinned tree (F2, F3, F4, F10, F13; all repaired).",
+        "level_note": "NOT decided: general panic freedom of the remaining invariant-justified unwrap/expect/index sites (the 34 inventoried "
+                      "first-element invariants are declared by the source, not proved), termination, that diagnostic locations lie inside "
+                      "the file. Capacity conversions (usize->u32) out of scope.",
     },
     {
         "id": "C15",
